@@ -16,6 +16,7 @@ def _(self, node, known_attrs):
     requires(in_strs('self', known_attrs))        # a valid __init__ (E-ARGSPEC)
     modifies(node)
     raises(RecognitionError)
+    raises_msg(RecognitionError, lambda m: cites(m))
     # all keys are plain str scalars, and everything below a key that is not
     # a constructor parameter is plain data: nothing there can be constructed
     ensures(node.kind == MAP and len(node.pairs) == len(old(node).pairs))
@@ -33,6 +34,7 @@ def _(self, loader, node):
     sort('loader', 'resolver')
     # only RecognitionError; the member is looked up by NAME
     raises(RecognitionError)
+    raises_msg(RecognitionError, lambda m: cites(m))
     ensures(node.kind == SCALAR and enum_has(self.class_, node.val))
     ensures(is_enum_member(yielded(), self.class_, node.val))
 
@@ -43,6 +45,7 @@ def _(self, loader, node):
     sort('loader', 'resolver')
     # whatever the user's class raises is reported as a RecognitionError
     raises(RecognitionError)
+    raises_msg(RecognitionError, lambda m: cites(m))
     ensures(node.kind == SCALAR and new_ok(self.class_, node.val))
     ensures(is_obj_of(yielded(), 'strlike', self.class_, node.val))
 
@@ -52,5 +55,6 @@ def _(self, loader, node):
     properties('C08', 'C05', 'C01')
     sort('loader', 'resolver')
     raises(RecognitionError)
+    raises_msg(RecognitionError, lambda m: cites(m))
     ensures(node.kind == SCALAR)
     ensures(is_obj_of(yielded(), 'path'))
